@@ -14,8 +14,8 @@ TRUSTED_COMMON = [
     "hand-written Lean model tied to /repo by differential execution (Go harness -tags verif vs compiled Lean driver) on the inputs listed under input_distribution",
     "Go harness, Python orchestrator/generators/oracles, Lean driver's line parser",
     "facts regenerated from /repo's Go AST on every run: constants and lockset table (harness/cmd/extract), mechanical Go->Lean translation of "
-    "writeToBuf / readToBuf / DecodeChunk / record and hint codecs / GetLogRecordDiskSize / nextPowerOfTwo / remap arithmetic (harness/cmd/trans; its subset, "
-    "effect and primitive tables are trusted; Go panics, read errors and nil-vs-empty are not modelled)",
+    "writeToBuf / readToBuf / DecodeChunk / record and hint codecs / GetLogRecordDiskSize / nextPowerOfTwo / remap arithmetic / the codecs of datatype/meta.go and the "
+    "string record of Set/Get (harness/cmd/trans; its subset, effect and primitive tables are trusted; Go panics, read errors and nil-vs-empty are not modelled)",
 ]
 
 
@@ -258,6 +258,8 @@ def check_C12(res, ctx):
         corrupt.check_truncated_hinted(res, ctx, rng_for(ctx.seed, "C12t", i))
     for i in range(1 if ctx.quick else 12):
         corrupt.check_structural(res, ctx, rng_for(ctx.seed, "C12s", i))
+    for i in range(2 if ctx.quick else 24):
+        corrupt.check_truncate_then_write(res, ctx, rng_for(ctx.seed, "C12w", i))
     return "every single-bit flip of every byte of the data / hint / marker files of small databases (exhaustive unless counted under files_sampled), " \
            "then Open + dump + Fold; random multi-byte overwrites, truncations (also exactly at block boundaries), cut-out ranges, zero runs and " \
            "64-byte garbage on larger ones; structural damage that keeps every chunk checksum valid (record cut between two of its chunks, missing " \
@@ -276,20 +278,28 @@ def crash_family(res, ctx, tag, kinds, n_quick, n_thorough, io_mix=(0, 0, 0, 0, 
         nsteps = rng.choice([8, 14, 20]) if ctx.quick else rng.choice([10, 20, 30])
         if io == 1:
             nsteps = 6 if ctx.quick else 10    # every recovery of an mmap image reads its 1 GiB zero extension
+            if kind == "merge-multi":
+                kind = "merge"                 # (the multi-file merge workloads have hundreds of crash points: hours under mmap)
         if kind == "merge-multi":
             ops, cfg = crashcheck.merge_workload(rng, io=io, double=(i % 2 == 0))
         else:
             ops, cfg = crashcheck.workload(rng, io=io, kind=kind, nsteps=nsteps)
         items.append((i, kind, io, ops, cfg))
     froms = {}
+    if ctx.quick:
+        # quick tier: a memory-mapped workload is crashed only during its second half (seconds per image)
+        for (i, kind, io, ops, cfg) in items:
+            if io == 1:
+                froms[i] = len(ops) // 2
     if tag == "C03":
         # directed: a power failure persists the first part of a large record whose bytes decode as SHORT chunks (0x01...: length 257);
         # recovery cuts it away; a short write follows; then a second crash without Close.  Whatever recovery cut away logically must
         # not resurface behind the new record (memory-mapped files are pre-extended: the stale bytes are still in the file).
         for io in (1, 0):
             cfg = {"fs": 65536, "sync": 0, "bps": 0, "idx": 1, "io": io, "shards": 4}
-            ops = [engine.open_line("d", cfg), "put 6b31 x11", "sync", "put 6b32 x" + "01" * 4000, "close"]
-            froms[len(items)] = 3
+            # (crash points: only the I/O events of the last, tiny Put - the large record in front of it is the unsynced tail)
+            ops = [engine.open_line("d", cfg), "put 6b31 x11", "sync", "put 6b32 x" + "01" * 4000, "put 6b33 x33"]
+            froms[len(items)] = 4
             items.append((len(items), "double-crash", io, ops, cfg))
 
     def job(it):
@@ -427,18 +437,24 @@ def check_C10(res, ctx):
         rng = rng_for(ctx.seed, "C10db", i)
         cfg = engine.rand_cfg(rng, io=0, fs=rng.choice([4096, 65536]))
         cfg["idx"] = 1 + i % 3
+        cfg["shards"] = [1, 2, 3, 16, 1024][(i // 3) % 5]
         ops, exp = itercheck.db_level(rng, engine.open_line("d", cfg), 40 if ctx.quick else 80)
         res.count("db_level")
-        exact_check(res, ctx, "DB iterator run %d" % i, ops, exp)
+        res.count("db_level:idx%d" % cfg["idx"])
+        res.count("db_level:shards%d" % cfg["shards"])
+        exact_check(res, ctx, "DB iterator run %d (index type %d, %d shards)" % (i, cfg["idx"], cfg["shards"]), ops, exp)
         if i == 0:
             res.sample({"db_level_ops": ops[:20]})
     # ListKeys / Fold visit the same snapshot: covered by the reference oracle of the C01 histories; one here
     rng = rng_for(ctx.seed, "C10lk")
     g = engine.Gen(rng, engine.rand_cfg(rng, io=0), nkeys=30, weights={"keys": 10, "fold": 10, "reopen": 0})
     engine_history_check(res, ctx, "ListKeys/Fold history", g.history(100))
+    for k, v in sorted(itercheck.STATS.items()):
+        res.count(k, v)
     return "index level: ShardedIndex x {btree, skiplist, map} x requested shards {1,2,3,16,1024}, random key sets with shared prefixes, two " \
-           "iterators per run, admissible Rewind/Seek/Next sequences (seek targets at or ahead of the cursor), writes after creation; DB level: " \
-           "prefix and direction, values by captured position; oracle: abstract cursor over the sorted snapshot"
+           "iterators per run, ARBITRARY Rewind/Seek/Next sequences (Seek targets ahead of the cursor, behind it, on an exhausted iterator, " \
+           "several Seeks in a row), writes after creation; DB level: the same x index type x shards {1,2,3,16,1024}, prefix and direction, " \
+           "values by captured position; oracle: abstract cursor over the sorted snapshot whose Seek never moves backwards"
 
 
 def check_C05(res, ctx):
@@ -677,37 +693,77 @@ def check_C14(res, ctx):
                           {"ops_a": ops0, "ops_b": transcripts[1][1]})
         if i < 1:
             res.sample({"body_head": body[:15], "configs": [t[0] for t in transcripts]})
-    # cursor scripts (Seek / Rewind / Next / prefix / reverse, writes behind the cursors) under every index type
+    # cursor scripts (ARBITRARY Seek / Rewind / Next sequences: backward Seeks, Seek on an exhausted iterator, several Seeks in
+    # a row; prefix / reverse; writes behind the cursors) under every index type x shard count: one transcript
     from . import itercheck
+    SHARDS = (1, 2, 3, 16, 1024)
+
+    def same(kind, ops, runs):
+        c0, o0, t0 = runs[0]
+        for cfg, o2, t in runs[1:]:
+            for (op, a, b) in zip(ops, t0, t):
+                if a != b:
+                    res.violation("same %s cursor calls, different results: `%s` -> %s under %s but %s under %s" % (kind, op, a[:200], c0, b[:200], cfg),
+                                  {"ops_a": o0, "ops_b": o2, "first_difference": op})
+                    return
+
     for i in range(6 if ctx.quick else 80):
         rng = rng_for(ctx.seed, "C14it", i)
         ops, exp = itercheck.db_level(rng, "OPEN", 40 if ctx.quick else 120)
-        outs_by = []
+        runs = []
         for idx in (1, 2, 3):
-            cfg = {"fs": 65536, "sync": 0, "bps": 0, "idx": idx, "io": 0, "shards": rng.choice([1, 3, 16])}
-            o2 = [engine.open_line("d", cfg)] + ops[1:]
-            bdir = ctx.scratch.fresh()
-            try:
-                outs = run_impl(o2, bdir)
-            finally:
-                ctx.scratch.drop(bdir)
-            res.case("it%d|%d" % (i, idx), True)
-            res.count("cursor_scripts:idx%d" % idx)
-            outs_by.append((cfg, o2, outs))
-        c0, o0, t0 = outs_by[0]
-        for cfg, o2, t in outs_by[1:]:
-            for (op, a, b) in zip(ops, t0, t):
-                if a != b:
-                    res.violation("same cursor calls, different results: `%s` -> %s under %s but %s under %s" % (op, a[:200], c0, b[:200], cfg),
-                                  {"ops_a": o0, "ops_b": o2, "first_difference": op})
-                    break
+            for sh in SHARDS:
+                cfg = {"fs": 65536, "sync": 0, "bps": 0, "idx": idx, "io": 0, "shards": sh}
+                o2 = [engine.open_line("d", cfg)] + ops[1:]
+                bdir = ctx.scratch.fresh()
+                try:
+                    outs = run_impl(o2, bdir)
+                finally:
+                    ctx.scratch.drop(bdir)
+                res.case("it%d|%d|%d" % (i, idx, sh), True)
+                res.count("cursor_scripts:idx%d" % idx)
+                res.count("cursor_scripts:shards%d" % sh)
+                runs.append((cfg, o2, outs))
+                if idx == 1 and sh == 1:
+                    # ... and that one transcript is the abstract cursor's
+                    for op, o, e in zip(o2, outs, exp):
+                        if e is not None and o != e:
+                            res.violation("DB cursor script %d: `%s` -> %s, expected %s" % (i, op, o[:200], e[:200]), {"ops": o2, "got": o, "expected": e})
+                            break
+        same("DB-level", ops, runs)
+    for i in range(6 if ctx.quick else 80):
+        rng = rng_for(ctx.seed, "C14ix", i)
+        ops, exp = itercheck.index_level(rng, 1, 1, 40 if ctx.quick else 120)
+        runs = []
+        for typ in (1, 2, 3):
+            for sh in SHARDS:
+                o2 = ["ix.new %d %d" % (typ, sh)] + ops[1:]
+                bdir = ctx.scratch.fresh()
+                try:
+                    outs = run_impl(o2, bdir)
+                finally:
+                    ctx.scratch.drop(bdir)
+                res.case("ix%d|%d|%d" % (i, typ, sh), True)
+                res.count("index_cursor_scripts:type%d" % typ)
+                res.count("index_cursor_scripts:shards%d" % sh)
+                runs.append(({"index_type": typ, "shards": sh}, o2, outs))
+                if typ == 1 and sh == 1:
+                    for op, o, e in zip(o2, outs, exp):
+                        if e is not None and o != e:
+                            res.violation("index cursor script %d: `%s` -> %s, expected %s" % (i, op, o[:200], e[:200]), {"ops": o2, "got": o, "expected": e})
+                            break
+        same("index-level", ops, runs)
+    for k, v in sorted(itercheck.STATS.items()):
+        res.count("cursor_scripts:" + k, v)
     # shard count normalisation
     vals = [1, 2, 3, 4, 5, 15, 16, 17, 31, 33, 511, 512, 513, 1023, 1024, 1025, 4096, 65535, 1 << 20, 1 << 31]
     exact_check(res, ctx, "nextPowerOfTwo", ["ix.npot %d" % v for v in vals],
                 [str(min(1024, 1 << (v - 1).bit_length())) for v in vals])
     return "one operation sequence executed under several configurations (index type x shard count x I/O type x DataFileSize x SyncStrategy): " \
            "the transcripts of all result-bearing calls (values, errors, key order, iterator steps, recovered dump) must be identical; with equal " \
-           "limits the data-file bytes of standard and mmap I/O must be identical; every third run reuses and scribbles the caller's buffers"
+           "limits the data-file bytes of standard and mmap I/O must be identical; every third run reuses and scribbles the caller's buffers; " \
+           "cursor scripts with ARBITRARY Rewind/Next/Seek sequences (backward Seeks, Seek on an exhausted iterator, Seeks in a row) at DB " \
+           "level and index level under index type {1,2,3} x shards {1,2,3,16,1024}: one transcript, equal to the abstract cursor's"
 
 
 def check_C15(res, ctx):
@@ -717,8 +773,10 @@ def check_C15(res, ctx):
         cfg = engine.rand_cfg(rng, io=(1 if i % 7 == 6 else 0))
         cfg["idx"] = 1 + i % 3
         w = {"reopen": 1, "merge": 1, "batch": 25 if i % 2 else 6, "put": 30, "get": 15}
-        g = engine.Gen(rng, cfg, nkeys=rng.choice([3, 6]), weights=w, max_val=rng.choice([200, 3000]))
+        # every fourth run has values of one to three blocks (multi-chunk records are reassembled in a pooled buffer)
+        g = engine.Gen(rng, cfg, nkeys=rng.choice([3, 6]), weights=w, max_val=(3 * engine.BS if i % 4 == 3 else rng.choice([200, 3000])))
         ops = g.history(60 if ctx.quick else 120)
+        res.count("runs_with_multi_block_values" if i % 4 == 3 else "runs_with_small_values")
         # sprinkle checks that slices returned earlier are unchanged
         out_ops = ["scribble on"]
         for k, op in enumerate(ops):
@@ -1146,6 +1204,50 @@ def check_C20(res, ctx):
                           {"ops": ops[:k + 1], "code": x, "model": y, "correspondence": "engine line protocol"}, no_input=True)
         if i < 1:
             res.sample({"ops_tail": ops[-30:]})
+    # a backup INTO THE DIRECTORY OF AN EARLIER BACKUP, after a merge and its adoption have replaced data files of the source by
+    # shorter ones: the copy must be the source's files, not the new bytes followed by the tail of the old copy
+    for i in range(4 if ctx.quick else 40):
+        rng = rng_for(ctx.seed, "C20r", i)
+        io = i % 2
+        cfg = {"fs": rng.choice([4096, 8192]), "sync": 0, "bps": 0, "idx": rng.choice([1, 2, 3]), "io": io, "shards": 4}
+        keys = ["%02x%02x" % (97 + j, 97 + j) for j in range(6)]
+        seed = rng.randrange(1000)
+        ops = [engine.open_line("d", cfg)]
+        for r in range(3):
+            for k in keys:
+                seed += 1
+                ops.append("put %s p%d:%d" % (k, seed, rng.choice([300, 700, 1100, 1500])))
+        ops += ["backup bk", "del " + keys[0]]
+        for k in keys[1:4]:
+            seed += 1
+            ops.append("put %s p%d:%d" % (k, seed, rng.choice([10, 333, 900])))
+        ops += ["merge", "close", engine.open_line("d", cfg)]
+        for k in keys[2:5]:
+            seed += 1
+            ops.append("put %s p%d:%d" % (k, seed, rng.choice([20, 450, 1300])))
+        at_backup = len(ops) + 1
+        ops += ["backup bk", "dump", "put %s x01" % keys[5], "close", "files bk", engine.open_line("bk", dict(cfg, io=0)), "dump", "close"]
+        base = ctx.scratch.fresh()
+        try:
+            outs = run_impl(ops, base, timeout=300)
+        finally:
+            ctx.scratch.drop(base)
+        res.evaluations += 1
+        res.count("rebackup_runs")
+        res.distinct.add("rebackup:%d:%s" % (i, outs[at_backup][:60]))
+        bad = [(op, o) for op, o in zip(ops, outs) if o.startswith(("panic", "died", "err:", "bad:")) and not op.startswith("get")]
+        if bad:
+            res.violation("backup into the directory of an earlier backup (run %d, io=%d): `%s` -> %s" % (i, io, bad[0][0], bad[0][1]), {"ops": ops})
+            continue
+        if outs[-2] != outs[at_backup]:
+            res.violation("backup into the directory of an earlier backup (run %d, io=%d): the copy opens to %s, the source had %s when Backup was called" % (
+                i, io, outs[-2][:200], outs[at_backup][:200]), {"ops": ops})
+            continue
+        d = diff_model(res, ctx, ops, outs, "C20 re-backup %d" % i)
+        if d is not None:
+            k, x, y = d
+            res.violation("correspondence broke on re-backup run %d at `%s`: code=%s model=%s" % (i, ops[k], x[:200], y[:200]),
+                          {"ops": ops[:k + 1], "code": x, "model": y, "correspondence": "engine line protocol"}, no_input=True)
     # backups taken while a writer and several readers keep going: "the source is unaffected and remains usable"
     from . import conccheck
     for io in ((1, 0) if ctx.quick else (1, 0, 1, 1)):
